@@ -21,6 +21,7 @@ import (
 	"verif/harness/cachex"
 	"verif/harness/hand"
 	"verif/harness/hx"
+	"verif/harness/quiesce"
 )
 
 func TestMain(m *testing.M) { hx.Main(m) }
@@ -275,7 +276,12 @@ func runCase(c Case, ctx *hx.Ctx) *hx.Failure {
 		}
 		wire := append([]byte(nil), *payload...)
 		pool.ReleaseBuf(payload)
-		time.Sleep(200 * time.Microsecond) // let a background refresh reach the upstream (it is judged like any upstream query)
+		// let a background refresh (a singleflight goroutine of the lazy cache) finish, so that what it sends upstream is
+		// judged against the query that started it and not against the next one
+		if left := quiesce.WaitGone("singleflight.(*Group).doCall", 10*time.Second); len(left) > 0 {
+			ctx.Class("inconclusive:background-refresh-still-running")
+			return nil
+		}
 		where := fmt.Sprintf("query %d (type %d, client opt %+v, udp=%v); chain %v; upstream opt %+v", qi, q.Type, q.Opt, q.UDP, rules, c.UpOpt)
 
 		// 1. what the upstream received
